@@ -19,9 +19,9 @@
     Result (forward simulation with stuttering, linearisation points: the Load
     that finds new <= old, the CompareAndSwap that succeeds): the sequence of
     abstract states of EVERY fine-grained trace is a trace of the coarse model
-    in which the other steps are stutter steps ([fine_refines_coarse]); the
+    in which the other steps are stutter steps ([fine_refines_coarse_all]); the
     value a callback's call returns at its linearisation point is the amount the
-    coarse [detect_obs] reports ([fine_detect_obs]).  Hence every state of the
+    coarse [detect_obs] reports ([fine_detect_obs_all]).  Hence every state of the
     fine-grained system is a reachable state of the coarse model and all
     theorems about reachable states (Props/C08Q.v) hold of it. *)
 From Coq Require Import List ZArith Bool Lia.
